@@ -1,7 +1,14 @@
 #!/bin/bash
 # Build the harness against /repo's current working tree (hooks on, offline).
+# VERIF_HARNESS_PKG selects a per-property development binary (./cmd/vh-c19);
+# default: the aggregated binary with every registered driver.
 set -e
 cd "$(dirname "$0")/../harness"
 export GOFLAGS=-mod=mod GOPROXY=off GOSUMDB=off GOTOOLCHAIN=local CGO_ENABLED=${CGO_ENABLED:-0}
-cp /repo/go.sum go.sum
-exec go build -tags verif -o vharness .
+cmp -s /repo/go.sum go.sum.base 2>/dev/null || { cp /repo/go.sum go.sum.base; cat /repo/go.sum go.sum.extra 2>/dev/null | sort -u > go.sum; }
+[ -f go.sum ] || cat /repo/go.sum go.sum.extra 2>/dev/null | sort -u > go.sum
+PKG=${VERIF_HARNESS_PKG:-.}
+OUT=vharness
+[ "$PKG" != "." ] && OUT=bin/$(basename "$PKG")
+mkdir -p bin
+exec go build -tags verif -o "$OUT" "$PKG"
